@@ -186,7 +186,9 @@ class I2CMasterMachine(LiteXModule):
             run.eq(self.start | self.stop | self.write | self.read),
             self.idle.eq(~run & fsm.ongoing("IDLE")),
             self.cg.ce.eq(~self.idle),
-            fsm.ce.eq(run | self.cg.clk2x),
+            # A command only steps the FSM when it is waiting for one (a command strobe received during
+            # a transfer must not shorten the current SCL phase).
+            fsm.ce.eq((run & fsm.ongoing("IDLE")) | self.cg.clk2x),
         ]
 
 # Registers:
